@@ -33,6 +33,20 @@ def items(tier: str) -> List[Any]:
         if s not in seen:
             seen.add(s)
             out.append(("g2", s))
+    # loops that really iterate (counter conditions): runs that take back edges, dispatch paths through loop headers
+    for s in spaces.counted_loops(small[:2], tier, max_size=2 if tier == "quick" else 3):
+        if s not in seen:
+            seen.add(s)
+            out.append(("g2", s))
+    # hand-written dispatchers: 2-3 tests in a row, each leaving the path towards one of two shared targets
+    # (several departures of one dispatch path lead to the SAME off-path block)
+    for k in (2, 3):
+        for combo in itertools.product([(p_, t_) for p_ in ("bz", "bnz") for t_ in ("rej", "acc")], repeat=k):
+            body = "".join(f"txn FirstValid\nint {7 + i}\n>\n{p_} {t_}\n" for i, (p_, t_) in enumerate(combo))
+            s = "#pragma version 8\n" + body + "txn RekeyTo\n" + Z + "\n==\nreturn\nrej:\nerr\nacc:\nint 1\nreturn\n"
+            if s not in seen:
+                seen.add(s)
+                out.append(("raw", s))
     gens = [raw.space(4, 2), raw.space(3, 2, multi=True), (s for s in raw.programs(4, 2, multi=True) if "switch" in s or "match" in s)]
     if tier != "quick":
         gens = [raw.space(4, 2), raw.space(4, 2, multi=True)]
@@ -331,6 +345,11 @@ def worker(item: Any, res: runner.Result) -> None:  # pylint: disable=too-many-l
                 elif l.op == "retsub":
                     depth -= 1
             if tuple(walk[: len(pid)]) != pid:
+                continue
+            # a run that comes back to a path block (a dispatch path through a loop) and leaves the path there is
+            # cut off by the error blocks the property itself prescribes: only walks of the cut graph are demanded
+            if any(walk[j] == pid[i] and walk[j + 1] != pid[i + 1] for i in range(len(pid) - 1) for j in range(len(walk) - 1)):
+                res.count("runs_leaving_the_path_on_a_later_visit")
                 continue
             nsel += 1
             for clause, det in sem.soundness_problems(cv, run, vis, fn.transaction_context):
